@@ -56,6 +56,13 @@ def check_window(prog, report):
         raise AnalysisError('%s: classification chain not found' %
                             fi.where())
     syms = {cvar + '.h_t': ht, cvar + '.h_x': hx, 'K': K, 'sigma': sg}
+    # local single assignments of the classification loop are inlined
+    from .absint import subst
+    local = {}
+    for s_ in cloop.body:
+        if isinstance(s_, ast.Assign) and len(s_.targets) == 1 and \
+                isinstance(s_.targets[0], ast.Name):
+            local[s_.targets[0].id] = subst(s_.value, local)
     # walk the if/elif chain
     branches = []
     node = chain
@@ -76,7 +83,7 @@ def check_window(prog, report):
             raise AnalysisError('%s: unrecognised marking branch' %
                                 fi.where(node))
         lst = text(apps[0].func.value)
-        r = _ratio(test, syms)
+        r = _ratio(subst(test, local), syms)
         if r is None:
             raise AnalysisError('%s: unrecognised marking condition `%s`' %
                                 (fi.where(node), text(test)))
